@@ -1,4 +1,4 @@
-import GstProofs.Neigh.Lemmas
+import GstProofs.Neigh.Fair
 /-!
 # C06 — Moving-neighbourhood search returns exactly the specified samples
 
@@ -6,8 +6,10 @@ Model: `GstVerif/Neigh/Model.lean` (transcription of `_moving`, `_movingSectorNs
 `_movingSelect`, `_neighCompress`).  Proved for all candidate lists and all parameters:
 the candidates are handled closest first (stable sort = a sorted permutation), the per-sector cap
 and the round-robin selection only ever *remove* candidates (subset, order kept), the round-robin
-quotas never exceed what a sector holds nor `nmaxi` in total, a single sector yields the `nmaxi`
-closest, too few candidates yield the empty neighbourhood, and the result is reported by increasing
+quotas never exceed what a sector holds nor `nmaxi` in total, add up to exactly `nmaxi` whenever that
+many candidates exist (so the `while` loop of the C++ terminates), are *fair* (two sectors never
+differ by more than one sample unless the poorer one is exhausted) and serve the earlier sectors
+first, a single sector yields the `nmaxi` closest, too few candidates yield the empty neighbourhood, and the result is reported by increasing
 storage rank.  The ball-tree query is specified as "the `k` first of the sorted candidates" and is
 tied by correspondence only (the tree algorithm itself is not modelled: stated as partial).
 -/
@@ -29,6 +31,23 @@ theorem quota (nmaxi : Nat) (counts : List Nat) :
     (quotas nmaxi counts).length = counts.length ∧
     (∀ i, i < counts.length → (quotas nmaxi counts).getD i 0 ≤ counts.getD i 0) ∧
     (quotas nmaxi counts).sum ≤ nmaxi := quotas_spec nmaxi counts
+
+/-- the quotas add up to exactly `nmaxi` when at least `nmaxi` candidates exist -/
+theorem quota_total (nmaxi : Nat) (counts : List Nat) (h : nmaxi ≤ counts.sum) :
+    (quotas nmaxi counts).sum = nmaxi := quotas_total nmaxi counts h
+
+/-- fairness: a sector served at least two samples less than another one is exhausted -/
+theorem quota_fair (nmaxi : Nat) (counts : List Nat) (i j : Nat) (hi : i < counts.length) (hj : j < counts.length)
+    (h : (quotas nmaxi counts).getD i 0 + 2 ≤ (quotas nmaxi counts).getD j 0) :
+    (quotas nmaxi counts).getD i 0 = counts.getD i 0 := quotas_fair nmaxi counts i j hi hj h
+
+/-- earlier sectors first: a later sector holds more than an earlier one only when that one is exhausted -/
+theorem quota_order (nmaxi : Nat) (counts : List Nat) (i j : Nat) (hij : i < j) (hj : j < counts.length)
+    (h : (quotas nmaxi counts).getD i 0 < (quotas nmaxi counts).getD j 0) :
+    (quotas nmaxi counts).getD i 0 = counts.getD i 0 := quotas_order nmaxi counts i j hij hj h
+
+/-- non-vacuity: 7 samples over sectors holding 5, 1, 4 -/
+example : quotas 7 [5, 1, 4] = [3, 1, 3] := by decide
 
 /-- fewer than `nmini` admissible samples: empty neighbourhood -/
 theorem too_few (nmini nmaxi nsect nsmax ntot : Nat) (cands : List Cand) (h : cands.length < nmini) :
